@@ -259,6 +259,8 @@ func simple(s *Stmt) string {
 		return s.K
 	case "use":
 		return "_ = " + s.Name
+	case "fallthrough":
+		return "fallthrough"
 	}
 	return ""
 }
